@@ -271,6 +271,8 @@ def run(ctx):
     # the same for every socket type that can be read frame by frame
     for pair in [("ROUTER", "DEALER"), ("DEALER", "ROUTER"), ("PUB", "SUB"), ("DEALER", "DEALER")]:
         for tr in (["tcp", "ipc", "inproc"] if thorough else ["tcp"]):
+            if tr == "inproc" and pair == ("DEALER", "DEALER"):
+                continue      # refused by inproc's own socket-type table (known finding C05-b)
             scs.append(detach_scenario("mp-detach%s-%s" % (pair[1].lower(), tr), tr, pair))
     scs.append(concurrent_scenario("mp-concurrent-tcp", "tcp"))
     # every way of reading x every receiver that takes multipart; parts passed one by one at the sender
@@ -342,6 +344,11 @@ def run(ctx):
             continue
         expected = [m for m in sent if sends.get(m, "ok") == "ok" and not all(s == 0 for s in sent[m])]
         missing = [m for m in expected if m not in seen]
+        refused = [x for x in r["records"] if x.get("ev") == "ret" and x.get("op") == "connect" and x.get("res", "ok") != "ok"]
+        if missing and refused:
+            # no connection, nothing to judge: the pair is refused over this transport (inproc's own table, see C05-b)
+            ctx.note("%s: not judged, connect() was refused (%s)" % (sc["name"], refused[0].get("res")))
+            continue
         if missing and not sc["name"].startswith("mp-pubsub"):
             ctx.violation("C02:lost:%s:%s" % (kind, backend), "%s: multipart messages %s were accepted and never delivered" % (sc["name"], missing[:5]), rp)
     ctx.sample({"from": "real sockets", "scenario": scs[2]["name"], "frames": frame_stream(res[2], "rx")[:12]})
